@@ -35,6 +35,38 @@ Open Scope nat_scope."""
 LOSSES = ["default", "uniform", "triangle", "curvature", "resolution", "resolution_max", "abs_min_log"]
 
 
+# functions whose first evaluated values are exactly equal (zero / non-zero constant on most of the domain incl. the
+# bounds), so that the value range stays exactly 0 over the first tells (`_scale[1] or 1`) and then grows
+def _f_hinge(x):
+    return 3.0 * max(0.0, x - 0.6) ** 2
+
+
+def _f_hingec(x):
+    return 2.5 + 3.0 * max(0.0, x - 0.6) ** 2
+
+
+def _f_bump(x):
+    return -0.75 + 40.0 * max(0.0, 0.01 - (x - 0.37) ** 2)
+
+
+def _f_vecflat(x):
+    h = max(0.0, x - 0.7)
+    return np.array([1.0 + 2.0 * h, -0.5 - h * h])
+
+
+for _n, _f in {"c12_hinge": _f_hinge, "c12_hingec": _f_hingec, "c12_bump": _f_bump, "c12_vecflat": _f_vecflat}.items():
+    I.FUNCS.setdefault(_n, _f)          # registered for this process only (impl_l1d.fun_of looks names up there)
+FLAT_FUNCS = ["c12_hinge", "c12_hingec", "c12_bump", "c12_vecflat"]
+
+
+def lockstep_op(l, cfg):
+    """Sequential runner: ask one point, tell it, ask the next."""
+    if l.pending_points:
+        x = float(sorted(l.pending_points)[0])
+        return ("tell", x, I.yval(cfg, x))
+    return ("ask", 1, True)
+
+
 def bits(x: float) -> bytes:
     return struct.pack("<d", float(x))
 
@@ -45,14 +77,15 @@ def same_floats(a, b) -> bool:
 
 
 def gen_cfg(rng):
-    cfg = {"func": rng.choice(list(I.FUNCS)), "bounds": list(rng.choice(I.BOUNDS)),
+    cfg = {"func": rng.choice(FLAT_FUNCS) if rng.random() < 0.25 else rng.choice([f for f in I.FUNCS if f not in FLAT_FUNCS]),
+           "bounds": list(rng.choice(I.BOUNDS)),
            "loss": rng.choice(LOSSES), "factor": rng.choice([1, 2, 2]),
            "k": rng.randint(-30, 30), "m": rng.randint(-30, 30)}
     if rng.random() < 0.08:
         cfg["k"] = rng.choice([-30, 30])
     if rng.random() < 0.08:
         cfg["m"] = rng.choice([-30, 30])
-    if cfg["loss"] == "abs_min_log" and cfg["func"] in ("step", "neg", "vec_step", "smooth"):
+    if cfg["loss"] == "abs_min_log" and cfg["func"] in ("step", "neg", "vec_step", "smooth", "c12_hinge", "c12_bump"):
         cfg["loss"] = "curvature"       # log of 0 / negative values: nan losses, outside the property (as in C01)
     return cfg
 
@@ -62,7 +95,10 @@ def zoom_ops(rng, cfg):
     fall below _dx_eps (the only place where an absolute threshold could hide), interleaved with asks."""
     lo, hi = cfg["bounds"]
     w = hi - lo
-    anchor, sgn = rng.choice([(lo, 1.0), (hi, -1.0), (lo + w / 2, 1.0), (lo + w / 4, -1.0)])
+    # the last two anchors sit on the jumps of f_step / f_vec_step: a tiny interval then carries the largest loss, so the
+    # width threshold _dx_eps becomes visible in loss() and ask()
+    anchor, sgn = rng.choice([(lo, 1.0), (hi, -1.0), (lo + w / 2, 1.0), (lo + w / 4, -1.0),
+                              (lo + 0.3 * w, -1.0), (lo + 0.2 * w, -1.0)])
     ops = [("tell", lo, I.yval(cfg, lo)), ("tell", hi, I.yval(cfg, hi))]
     if anchor not in (lo, hi):
         ops.append(("tell", anchor, I.yval(cfg, anchor)))
@@ -117,7 +153,7 @@ def observe(l, rec):
         rec.on = True
 
 
-def run_twin(cfg, rng, nops, ops=None, want_obs=True):
+def run_twin(cfg, rng, nops, ops=None, want_obs=True, lockstep=False):
     """Drive the original and the rescaled learner with the same abstract history.
     Returns dict(orig=(l, rec, steps), twin=(l2, rec2, steps2), errors=[(step, kind, detail)], feats)."""
     sx, sy = 2.0 ** cfg["k"], 2.0 ** cfg["m"]
@@ -127,7 +163,7 @@ def run_twin(cfg, rng, nops, ops=None, want_obs=True):
     feats = {"interior_ask": False, "pending_at_ask": False, "rescales": 0, "batch": False, "degenerate_y": False, "below_dx_eps": False}
     it = ops if ops is not None else range(nops)
     for i, item in enumerate(it):
-        op = I.norm_op(item) if ops is not None else I.gen_next_op(rng, l, cfg)
+        op = I.norm_op(item) if ops is not None else (lockstep_op(l, cfg) if lockstep else I.gen_next_op(rng, l, cfg))
         op2 = scale_op(op, sx, sy)
         if op[0] == "ask" and len(l.data) >= 2:
             feats["interior_ask"] = True
@@ -203,7 +239,8 @@ def run(chk: Check) -> int:
         stats["rescale_sweeps"] += f["rescales"]
         stats["interior_ask_with_pending"] += f["pending_at_ask"]
         stats["batch"] += f["batch"]
-        stats["vector"] += cfg["func"].startswith("vec")
+        stats["vector"] += "vec" in cfg["func"]
+        stats["flat_start"] = stats.get("flat_start", 0) + (cfg["func"] in FLAT_FUNCS)
         stats["nn1"] += l.nth_neighbors
         stats["degenerate_value_scale"] += f["degenerate_y"]
         stats["interval_below_dx_eps"] = stats.get("interval_below_dx_eps", 0) + f["below_dx_eps"]
@@ -233,8 +270,10 @@ def run(chk: Check) -> int:
         zoom = rng.random() < 0.15
         stats["zoom"] = stats.get("zoom", 0) + zoom
         try:
+            lock = not zoom and rng.random() < 0.12
+            stats["lockstep"] = stats.get("lockstep", 0) + lock
             r = run_twin(cfg, rng, rng.randint(3, maxlen), ops=zoom_ops(rng, cfg) if zoom else None,
-                         want_obs=len(cases) < ncoq)
+                         want_obs=len(cases) < ncoq, lockstep=lock)
         except OverflowError:
             continue        # int(loss * 1e12) overflows for an infinite loss: outside the property (as in C01)
         add(cfg, r, f"seed{chk.seed}/{k}")
